@@ -71,13 +71,14 @@ fn freq_column_set(rng: &mut impl Rng, m: usize, nsym: usize) -> Vec<Vec<String>
 pub fn gen_motif<A: Abc>(rng: &mut impl Rng, fmt: &str, idx: usize) -> Motif {
     // widths: mostly short, some 20-40, and a few beyond 99 positions (three-digit TRANSFAC row labels)
     let m = if idx % 17 == 5 { rng.gen_range(100..=125) } else if rng.gen_bool(0.1) { rng.gen_range(20..=40) } else { rng.gen_range(1..=12) };
-    let k = A::KK - 1;
+    // one motif in four of the formats that name their symbols also lists the wildcard (N / X) as one more symbol line
+    let k = if matches!(fmt, "jaspar16" | "uniprobe" | "transfac") && idx % 4 == 3 { A::KK } else { A::KK - 1 };
     let mut order: Vec<usize> = (0..k).collect();
     match fmt {
         "jaspar" => { order = vec![0, 1, 3, 2]; }                 // A C G T (ranks: A=0 C=1 T=2 G=3)
         "jaspar16" | "uniprobe" | "transfac" => {
             if rng.gen_bool(0.7) { for i in (1..k).rev() { let j = rng.gen_range(0..=i); order.swap(i, j); } }
-            else if A::KK == 5 { order = vec![0, 1, 3, 2]; }
+            else if A::KK == 5 && k == 4 { order = vec![0, 1, 3, 2]; }
         }
         _ => {}
     }
